@@ -125,6 +125,8 @@ fn mutate(rng: &mut Rng, m: &Matrix, lex: &Lexicon) -> Mutated {
             let k = rng.below(rows[r].len());
             rows[r].truncate(k);
             what = format!("row {}: truncated to {} fields", r, k);
+            // an empty line is skipped by the CSV reader: later rows move up and numeric references point elsewhere
+            splits_touched = true;
         }
         4 => {
             let f = 1 + rng.below(3);
